@@ -241,6 +241,11 @@ class CMapDB:
         )
         for directory in cmap_paths:
             path = os.path.join(directory, filename)
+            # The name comes from the document: never look outside the directory.
+            resolved_directory = os.path.realpath(directory)
+            resolved_path = os.path.realpath(path)
+            if not resolved_path.startswith(os.path.join(resolved_directory, "")):
+                continue
             if os.path.exists(path):
                 gzfile = gzip.open(path)
                 try:
